@@ -324,8 +324,9 @@ pub fn random_op(db: &mut Database, ctx: &mut Ctx, rng: &mut Rng, allow_nonempty
                 }
                 continue;
             }
-            8 if !gs.is_empty() => {
-                let id = *rng.pick(&gs);
+            8 => {
+                // any group, the root group included
+                let id = if gs.is_empty() || rng.chance(1, 5) { root_id } else { *rng.pick(&gs) };
                 let g = group_mut(&mut db.root, id).unwrap();
                 if rng.chance(2, 3) {
                     g.name = format!("renamed{}", t);
@@ -456,13 +457,73 @@ pub struct Case {
     pub ops: Vec<String>,
 }
 
+/// A focused scenario from the quantifier "deletions concurrent with edits, moves and additions below
+/// the deleted node": one replica moves a node X out of a group G and then deletes G with what is
+/// left in it; the other replica edits X (and maybe G) at some other time.  Returns false when the
+/// ancestor has no non-root group with a child.
+fn focused_move_out_delete(a: &mut Database, b: &mut Database, ctx: &mut Ctx, rng: &mut Rng, ops: &mut Vec<String>) -> bool {
+    // candidates: (group G below the root, child X of G)
+    fn cands(g: &Group, is_root: bool, out: &mut Vec<(Uuid, Uuid, bool)>) {
+        for c in &g.children {
+            if let Node::Group(s) = c { cands(s, false, out); }
+            if !is_root {
+                match c { Node::Entry(e) => out.push((g.uuid, e.uuid, false)), Node::Group(s) => out.push((g.uuid, s.uuid, true)) }
+            }
+        }
+    }
+    let mut cs = Vec::new();
+    cands(&a.root, true, &mut cs);
+    if cs.is_empty() { return false; }
+    let (g, x, x_is_group) = cs[rng.below(cs.len() as u64) as usize];
+    let mover_is_a = rng.chance(1, 2);
+    let edit_first = rng.chance(1, 2);
+    let mut edit = |db: &mut Database, ctx: &mut Ctx, rng: &mut Rng, tag: &str, ops: &mut Vec<String>| {
+        let t = ctx.tick();
+        if x_is_group {
+            let gr = group_mut(&mut db.root, x).unwrap();
+            gr.name = format!("renamed{}", t);
+            gr.times.set_last_modification(mk_time(t));
+            ops.push(format!("{}:rename-group", tag));
+        } else {
+            edit_entry(entry_mut(&mut db.root, x).unwrap(), t, rng);
+            ops.push(format!("{}:edit-entry", tag));
+        }
+        if rng.chance(1, 3) {
+            let t2 = ctx.tick();
+            let gg = group_mut(&mut db.root, g).unwrap();
+            gg.notes = Some(format!("notes{}", t2));
+            gg.times.set_last_modification(mk_time(t2));
+            ops.push(format!("{}:rename-group", tag));
+        }
+    };
+    let (mover, editor, mt, et) = if mover_is_a { (&mut *a, &mut *b, "d", "s") } else { (&mut *b, &mut *a, "s", "d") };
+    if edit_first { edit(editor, ctx, rng, et, ops); }
+    // move X out of G to the root, then delete G and everything still in it
+    let tm = ctx.tick();
+    let mut n = take_child(group_mut(&mut mover.root, g).unwrap(), x).unwrap();
+    match &mut n { Node::Entry(e) => e.times.set_location_changed(mk_time(tm)), Node::Group(s) => s.times.set_location_changed(mk_time(tm)) }
+    mover.root.children.push(n);
+    ops.push(format!("{}:move-out", mt));
+    let td = ctx.tick();
+    let gone = take_child(parent_of(&mut mover.root, g).unwrap(), g).unwrap();
+    let mut ids = vec![g];
+    if let Node::Group(gg) = &gone { let (mut e2, mut g2) = (Vec::new(), Vec::new()); collect(gg, &mut e2, &mut g2); ids.extend(g2); ids.extend(e2); }
+    if rng.chance(1, 2) { ids.reverse(); }
+    for u in ids { mover.deleted_objects.objects.push(DeletedObject { uuid: u, deletion_time: mk_time(td) }); }
+    ops.push(format!("{}:delete-group-subtree", mt));
+    if !edit_first { edit(editor, ctx, rng, et, ops); }
+    true
+}
+
 pub fn gen_case(rng: &mut Rng, max_ops: u64, subtree_delete: bool) -> Case {
     let (anc, mut ctx) = ancestor(rng);
     ctx.clock = 2000;
     let mut a = anc.clone();
     let mut b = anc;
     let mut ops = Vec::new();
-    let n = rng.below(max_ops + 1);
+    // one case in eight (subtree streams) starts with the focused scenario, followed by a few random operations
+    let focused = subtree_delete && rng.chance(1, 8) && focused_move_out_delete(&mut a, &mut b, &mut ctx, rng, &mut ops);
+    let n = if focused { rng.below(3) } else { rng.below(max_ops + 1) };
     for _ in 0..n {
         // interleave under one clock so that time stamps are pairwise distinct across replicas
         if rng.chance(1, 2) {
@@ -772,6 +833,15 @@ pub fn evaluate(prop: &str, c: &Case, first: &MergeRun) -> Option<(String, Optio
                                 if re != se {
                                     return Some((format!("entry {} (source only) was not copied verbatim", u.as_u128()), None));
                                 }
+                            }
+                        }
+                    }
+                    // the root group is a group present on both sides as well
+                    if c.dest.root.uuid == c.src.root.uuid {
+                        if let (Some(slm), Some(dlm)) = (c.src.root.times.get_last_modification(), c.dest.root.times.get_last_modification()) {
+                            let winner = if slm > dlm { &c.src.root } else { &c.dest.root };
+                            if group_data_s(&d1.root) != group_data_s(winner) {
+                                return Some((format!("the root group does not carry the name/notes/icon/settings of the side that modified it last"), None));
                             }
                         }
                     }
